@@ -5,6 +5,7 @@ import Stackage.Spec.Grammar
 # Lemmas about the rendering model: one level of `assembleStringStack` against the grammar
 -/
 
+set_option linter.unusedSimpArgs false
 namespace Stackage
 
 theorem kindWord_ne_nil (k : Nat) : Gen.kindWord k ≠ [] := by
@@ -42,7 +43,8 @@ def asmSep (c : Cfg) : Text :=
 
 /-- what `assembleStringStack` writes to its builder -/
 def asmBody (c : Cfg) (strs : List Text) : Text :=
-  if c.lonce then (if c.kind != Gen.kind_list then c.otText else []) ++ strs.foldr (· ++ ·) []
+  if c.lonce then
+    (if c.kind != Gen.kind_list && !strs.isEmpty then c.otText else []) ++ strs.foldr (· ++ ·) []
   else joinText c.asmSep strs
 
 theorem assemble_unfold (c : Cfg) (strs : List Text) :
@@ -59,7 +61,8 @@ namespace Grammar
 
 /-- the text between the parentheses at one level of the grammar -/
 def body (c : Cfg) (items : List Text) : Text :=
-  if c.lonce then lead c ++ items.foldr (· ++ ·) [] else joinText (sep c) items
+  if c.lonce then (if items.isEmpty then [] else lead c) ++ items.foldr (· ++ ·) []
+  else joinText (sep c) items
 
 theorem level_unfold (c : Cfg) (items : List Text) : level c items = condense (P c (body c items)) := rfl
 
@@ -116,7 +119,10 @@ theorem asmBody_sim (c : Cfg) (strs : List Text) : Sim (c.asmBody strs) (Grammar
   cases h1 : c.lonce
   · simp only [Bool.false_eq_true, if_false]
     exact Sim.joinText (asmSep_sim c) strs
-  · simp only [if_true, otText_eq_lead]
+  · have e : (if c.kind != Gen.kind_list && !strs.isEmpty then c.otText else []) =
+        (if strs.isEmpty then [] else Grammar.lead c) := by
+      rw [← otText_eq_lead]; cases strs <;> simp
+    simp only [if_true, e]
     exact Sim.refl _
 
 /-- the outer padding and the parenthesis padding collapse -/
@@ -194,7 +200,8 @@ theorem infix_asmBody (c : Cfg) {x : Text} {strs : List Text} (h : x ∈ strs) :
   · simp only [Bool.false_eq_true, if_false]; exact infix_joinText _ h
   · simp only [if_true]
     exact (infix_concat h).trans
-      ⟨(if c.kind != Gen.kind_list then c.otText else []), [], by simp only [List.append_nil]⟩
+      ⟨(if c.kind != Gen.kind_list && !strs.isEmpty then c.otText else []), [], by
+        simp only [List.append_nil]⟩
 
 /-- a solid piece of an item text survives one level of `assembleStringStack` verbatim -/
 theorem infix_assemble (c : Cfg) {w x : Text} {strs : List Text} (hw : Solid w) (hx : x ∈ strs)
